@@ -196,7 +196,7 @@ func runCase(t *rapid.T) {
 		t.Fatalf("new node: %v", err)
 	}
 	defer n.Close()
-	opts := node.GenOpts{MaxTxs: 4, AllowChange: true, AllowAgg: true, AllowStandby: true}
+	opts := node.GenOpts{MaxTxs: 4, AllowChange: true, AllowAgg: true, AllowStandby: true, AllowRotate: true}
 	flags := map[string]bool{}
 	var hist []string
 	hlen := rapid.IntRange(0, 22).Draw(t, "history")
